@@ -129,6 +129,7 @@ fn c15_0_new_and_remote_window() {
     if win == 0 {
         assert!(c.window() == 0, "C05: zero peer window => zero send window");
     }
+    kani::cover!(true, "end of harness reachable (assumptions satisfiable, no unconditional failure)");
 }
 
 // @verif id=C15.1a props=C15 tier=quick timeout=900
@@ -244,6 +245,7 @@ fn c15_2c_loss_events_never_increase_window_grid() {
     }
     assert!(clamped(&c) <= clamped(&pre), "C15: a loss event never increases the clamped window");
     assert!(inv(&c), "C15: invariant after a loss event");
+    kani::cover!(true, "end of harness reachable (assumptions satisfiable, no unconditional failure)");
 }
 
 // @verif id=C15.3 props=C15,C05 tier=quick timeout=900
@@ -345,6 +347,7 @@ fn c15_5_on_recovered_all_doubles() {
     assert!(window_sane(&c), "C15: window bounds after recovery");
     let _ = c.window();
     let _ = c.sshthresh();
+    kani::cover!(true, "end of harness reachable (assumptions satisfiable, no unconditional failure)");
 }
 
 // @verif id=C15.6 props=C15,C05 tier=quick timeout=900
